@@ -707,6 +707,15 @@ func init() {
 		fr.safety("nil", not(eq(r.S, "0")), reach, in.Pos(), "nil *bytes.Buffer")
 		return fc.define("bufbytes", Term{sel(bufArr(fc, st).S, r.S), SString})
 	}
+	// bytes.NewBufferString(s) / bytes.NewBuffer(b): a fresh buffer whose content is the argument
+	newBuf := func(fr *frame, in ssa.Instruction, c *ssa.CallCommon, args []Val, st *State, reach string) Val {
+		fc := fr.fc
+		r := fc.newRef(st, "buffer")
+		a := bufArr(fc, st)
+		fc.heapSet(st, "BUF", Term{store(a.S, r.S, tArg(args, 0).S), a.Sort})
+		return r
+	}
+	libModels["bytes.NewBufferString"] = newBuf
 	libModels["bytes.(*Buffer).Bytes"] = bufRead
 	libModels["bytes.(*Buffer).String"] = bufRead
 	for _, k := range []string{"bytes.(*Buffer).Write", "bytes.(*Buffer).WriteString", "bytes.(*Buffer).Reset"} {
@@ -939,8 +948,11 @@ func (fc *FnCtx) permTerm(a, b Term) string {
 			fmt.Sprintf("(assert (forall ((a %s) (b %s) (c %s)) (! (=> (and (%s a b) (%s b c)) (%s a c)) :pattern ((%s a b) (%s b c)))))", S, S, S, p, p, p, p, p),
 			fmt.Sprintf("(assert (forall ((a %s) (b %s)) (! (=> (%s a b) (= (slen a) (slen b))) :pattern ((%s a b)))))", S, S, p, p),
 			fmt.Sprintf("(assert (forall ((a %s) (b %s) (i Int)) (! (=> (and (%s a b) (<= 0 i) (< i (slen a))) (and (<= 0 (%s a b i)) (< (%s a b i) (slen b)) (= %s %s))) :pattern ((%s a b) %s))))", S, S, p, w, w, at("b", "("+w+" a b i)"), at("a", "i"), p, at("a", "i")),
-			fmt.Sprintf("(assert (forall ((a %s) (b %s) (i Int) (j Int)) (! (=> (and (%s a b) (<= 0 i) (< i j) (< j (slen a))) (not (= (%s a b i) (%s a b j)))) :pattern ((%s a b i) (%s a b j)))))", S, S, p, w, w, w, w))
-		fc.trusted["perm(a, b) is an uninterpreted predicate constrained only by consequences of 'b is a permutation of a' (equal length, injective element-preserving index map, reflexive, transitive); it is introduced only by the assumed contract of sort.Sort"] = true
+			fmt.Sprintf("(assert (forall ((a %s) (b %s) (i Int) (j Int)) (! (=> (and (%s a b) (<= 0 i) (< i j) (< j (slen a))) (not (= (%s a b i) (%s a b j)))) :pattern ((%s a b i) (%s a b j)))))", S, S, p, w, w, w, w),
+			// and the inverse index map: every element of b is an element of a
+			fmt.Sprintf("(declare-fun %sinv (%s %s Int) Int)", w, S, S),
+			fmt.Sprintf("(assert (forall ((a %s) (b %s) (k Int)) (! (=> (and (%s a b) (<= 0 k) (< k (slen b))) (and (<= 0 (%sinv a b k)) (< (%sinv a b k) (slen a)) (= %s %s))) :pattern ((%s a b) %s))))", S, S, p, w, w, at("a", "("+w+"inv a b k)"), at("b", "k"), p, at("b", "k")))
+		fc.trusted["perm(a, b) is an uninterpreted predicate constrained only by consequences of 'b is a permutation of a' (equal length, injective element-preserving index map from a to b, an element-preserving index map from b to a, reflexive, transitive); it is introduced only by the assumed contract of sort.Sort"] = true
 	}
 	return fmt.Sprintf("(%s %s %s)", p, a.S, b.S)
 }
